@@ -48,8 +48,13 @@ def run(chk):
     for i in range(n // 5):
         doc = gen.sawtooth_family(rng)
         pool.append(("sawtooth:%d" % i, doc, demes.Graph.fromdict(doc)))
+    fixed_N0 = {}
+    for i in range(max(10, n // 10)):
+        doc, n0_ = gen.sister_family(rng)
+        pool.append(("sisters:%d" % i, doc, demes.Graph.fromdict(doc)))
+        fixed_N0["sisters:%d" % i] = n0_
     for label, doc, g in pool:
-        N0 = rng.choice([1, 100, 1e4, 0.37, 2.5])
+        N0 = fixed_N0.get(label, rng.choice([1, 100, 1e4, 0.37, 2.5]))
         payload = gen.graph_payload(g)
         rep = dict(op="to_ms", graph=payload, N0=N0, label=label)
         try:
